@@ -158,10 +158,14 @@ CLAIMED = {
              "unknown_type_ref_rejected / parameter_type_resolves, containers_unique (the three name tables of the definition "
              "object never hold two entries for a name, by induction through the recursive cache filling), inheritors_exact / "
              "popFold_spec / basedOn_nodup (after the back-population pass each container's inheritor list is exactly the "
-             "containers naming it as base, each once, in table order, all other fields untouched). Not proved: the rejection of "
-             "dangling container/entry references and cycles end-to-end, and that the theorems compose into one statement about "
-             "from_xtce — these are decided by the correspondence (all single-point corruptions of generated documents) with an independent oracle "
-             "over the document tree; object identity is checked with `is` on the real graph.",
+             "containers naming it as base, each once, in table order, all other fields untouched). End to end for loadXtce: "
+             "dangling_type_ref_is_load_failure, dangling_base_is_load_failure, dangling_parameter_entry_is_load_failure (a "
+             "document with such a reference fails at load, whatever else it contains; via foldlM_fails, "
+             "unparsable_container_rejected_doc, container_set_failure_is_load_failure). Not proved: rejection of dangling "
+             "ContainerRefEntry references (needs the invariant that the lookup only holds parsed containers), of duplicates "
+             "and of cycles end to end — decided by the correspondence (all single-point corruptions of generated documents, "
+             "also aimed at declared-but-unused parameters) with an independent oracle over the document tree; object "
+             "identity is checked with `is` on the real graph.",
         design="§7 C17", technique="Lean 4 proof (fold invariants) + corruption-sweep correspondence check"),
     "C09": dict(
         text="PARTIAL. Proved (Lean mirror of every to_xml / from_xml over abstract XML trees): comparison_roundtrip, "
